@@ -278,7 +278,7 @@ pub fn judge_case(c: &Case) -> Obs {
 
 fn cases() -> impl Strategy<Value = Case> {
     prop_oneof![
-        9 => (proggen::prog_spec(20), prop::collection::vec((any::<u16>(), 0u8..3), 0..4), prop::collection::vec(raw_cmd(), 1..14), input_bytes())
+        9 => (prop_oneof![6 => proggen::prog_spec(20).boxed(), 1 => proggen::raw_image_spec(super::c03::image_words()).boxed()], prop::collection::vec((any::<u16>(), 0u8..3), 0..4), prop::collection::vec(raw_cmd(), 1..14), input_bytes())
             .prop_map(|(spec, extra, cmds, input)| Case::Generated { spec, extra, cmds, input }),
         1 => (prop::collection::vec(any::<u8>(), 1..8), any::<bool>()).prop_map(|(steps, predefined)| Case::SelfCall { steps, predefined }),
     ]
@@ -297,7 +297,7 @@ impl Prop for C11 {
         vec!["RefDbg (Appendix C); same exclusions as C10".into()]
     }
     fn run_worker(&self, ctx: &Ctx, rep: &mut Report) {
-        let n = ctx.share(ctx.tier.pick(10_000, 150_000));
+        let n = ctx.share(ctx.tier.pick(30_000, 300_000));
         drive(ctx, rep, "sessions", cases(), n, &mut |c: &Case| judge_case(c));
     }
     fn replay(&self, _ctx: &Ctx, case: &Value) -> Obs {
